@@ -144,6 +144,16 @@ func superlativeByComparison(d *dataTreeNavigator, context Context, prefs compar
 		result := splatted.MatchingNodes.Front()
 		if result != nil {
 			for el := result.Next(); el != nil; el = el.Next() {
+				// null is the smallest value, as in sort; the comparison operators answer false for a
+				// null on either side, which made the result depend on where the null sits
+				candidateIsNull := el.Value.(*CandidateNode).guessTagFromCustomType() == "!!null"
+				resultIsNull := result.Value.(*CandidateNode).guessTagFromCustomType() == "!!null"
+				if candidateIsNull || resultIsNull {
+					if candidateIsNull != resultIsNull && candidateIsNull != prefs.Greater {
+						result = el
+					}
+					continue
+				}
 				cmp, err := fn(d, context, el.Value.(*CandidateNode), result.Value.(*CandidateNode))
 				if err != nil {
 					return Context{}, err
